@@ -129,6 +129,22 @@ def modeOp (site : String) (u : Int) : String :=
   | [m], [a] => s!"mode={m} after={a}"
   | _, _ => s!"mode=? after=? ({ms.length} creation sites, {after.length} final umasks)"
 
+/-- `_random_write_seed` over something that already sits at the seed path (a regular file with permission bits `perm` owned by
+    `uid`, or a symlink to a victim file), as root under umask `u`: what is at the path afterwards.  If the generated kernel
+    unlinks before its creating `open`, the object is fresh (mode argument applies); if it does not, `open (O_CREAT|O_TRUNC)`
+    re-uses a regular file as it is and follows a symlink. -/
+def seedPreOp (kind : String) (perm uid u : Int) : String :=
+  let o := random_write_seed u 1024 0 0 3 0 0 0 0
+  let fresh := match o.events with
+    | ("unlink", _) :: ("open", _) :: _ => true
+    | _ => false
+  match seedModes u with
+  | [m] =>
+    if fresh then s!"mode={m} type=reg uid=0 victim=intact"
+    else if kind == "link" then "mode=511 type=link uid=0 victim=overwritten"
+    else s!"mode={perm} type=reg uid={uid} victim=intact"
+  | ms => s!"mode=? ({ms.length} creation sites)"
+
 /-- `lock_create` over a lock file that already exists with permission bits `perm` and owner `uid` -/
 def lockPreOp (perm uid euid : Int) : String :=
   let o := lock_create 0 1 0 (-1) 0 0 0 3 0 0 0
@@ -170,6 +186,7 @@ def step (st : St) (args : List String) : St × String :=
     | ["gate", base, site, force, eu, tg, dirs] => do
         pure (gateOp base.toList site (← nat? force) (← nat? eu) (← tgid? tg) (← dirs? dirs))
     | ["mode", _, site, u] => do pure (modeOp site (← nat? u))
+    | ["seedpre", _, kind, perm, uid, u] => do pure (seedPreOp kind (← nat? perm) (← nat? uid) (← nat? u))
     | ["lockpre", _, perm, uid, eu, _] => do pure (lockPreOp (← nat? perm) (← nat? uid) (← nat? eu))
     | _ => none
   (st, out.getD "bad-op")
